@@ -15,8 +15,13 @@ Case syntax (JSON, symbolic so that a case replays):
         ["setg", i, tag, [item]] ["glist", i, tag] ["gtag", i, tag, gtag, gvalue, dst|null]
         ["gidx", i, tag, idx, dst|null] ["query", i, [tag]] ["eq", i, j] ["eqd", i, [[tag, value]]]
         ["str", i] ["repr", i] ["smt", i, mt] ["items", i]
-A container handed to / returned from a group method is deep-copied at that boundary: aliasing
-between variables is outside the model."""
+        ["at", i, [step, ...], lop]   a method called on the item reached from variable i through the accessors:
+              step ["idx", tag, n] .get_group_by_index | ["tag", tag, gtag, gvalue] .get_group_by_tag | ["list", tag, n] .get_group_list(tag)[n]
+              lop  ["set", tag, value, replace, via] | ["del", tag] | ["addg", tag, item, idx|null] | ["setg", tag, [item]] | ["smt", mt] | ["get", tag, dflt, via]
+A container handed to a group method or stored into a variable by gtag/gidx is deep-copied at that
+boundary: aliasing between *variables* is outside the model.  Aliasing between a container and its
+own items is modelled: "at" changes the item in place through the accessors, and the model
+(ContainerRun.OAt / Container.at_path) updates the container functionally."""
 import copy
 import glob
 import json
@@ -34,13 +39,16 @@ META = {
     "rule": "adaptive random operation sequences (<= 25 ops quick) over 4 container variables (FIXContainer and FIXMessage), "
             "9 tag numbers x 3 spellings (int, str, FTag) plus odd spellings (' 5', '+5', '05', '5_0', 'x', '', '1.0', None ...), "
             "values str/int/float/enum/bool/None/class/nested dict lists/containers, nesting <= 3, twin-variable, "
-            "text-collision, msg_type-of-item and error-marker scenarios for equality; a case is one sequence, non-trivial when it mutates a container at least "
+            "text-collision, msg_type-of-item and error-marker scenarios for equality, in-place changes of nested items "
+            "reached through get_group_by_index / get_group_by_tag / get_group_list (depth 1-3), sandwich histories "
+            "(== ; one in-place change at depth 0-3 ; == both ways ; same change on the twin ; ==) and eq-change-eq chains; a case is one sequence, non-trivial when it mutates a container at least "
             "3 times, reads at least once and reaches a refusal; distinct by canonical op list; pickle round trip is "
             "checked differentially on every variable at the end of each sequence",
     "trusted_base": ["str() of values, floats and enum members is computed by Python and handed to the model",
                      "Py/Str.py_int as the model of int(str) on latin-1 text"],
     "assumptions": ["tags are int / latin-1 str / FTag member / None; int tags have fewer than 4300 digits",
-                    "aliasing between a container and group items handed in or out is outside the model (copied at the boundary)",
+                    "aliasing between two variables (a container passed to add_group/set_group is stored itself; an item kept in a "
+                    "variable) is outside the model: copied at that boundary; an item changed through the accessors is modelled (OAt)",
                     "class-valued tags (set(tag, SomeClass)) are compared with the model but not judged by the oracle"],
 }
 
@@ -49,7 +57,21 @@ DELIMS = set("|=>[], ")
 EXC_CODE = {"FIXMessageError": 1, "DuplicatedTagError": 2, "TagNotFoundError": 3, "RepeatingTagError": 4,
             "UnmappedRepeatedGrpError": 5, "KeyError": 6, "AttributeError": 7, "IndexError": 8,
             "ValueError": 9, "TypeError": 10}
-MUTATING = {"new", "set", "del", "addg", "setg", "smt"}
+MUTATING = {"new", "set", "del", "addg", "setg", "smt", "at"}
+LOP_CODE = {"set": 0, "del": 1, "addg": 2, "setg": 3, "smt": 4, "get": 5}
+
+
+def inner_op(op):
+    """The operation an "at" applies to the reached item, in the syntax of the top-level operations."""
+    return [op[3][0], op[1]] + list(op[3][1:])
+
+
+def step_sx(st):
+    if st[0] == "idx":
+        return [0, tag_sx(st[1]), st[2]]
+    if st[0] == "tag":
+        return [1, tag_sx(st[1]), tag_sx(st[2]), st[3]]
+    return [2, tag_sx(st[1]), st[2]]
 
 _lib = {}
 
@@ -188,14 +210,31 @@ def opt(x):
     return [] if x is None else [x]
 
 
-def apply_impl(pool, op):
+def apply_impl(pool, op, target=None):
     """Run one operation on the real objects.  -> (raw outcome, model op term)
-    raw outcome: ("ok", python value) | ("exc", exception class)."""
+    raw outcome: ("ok", python value) | ("exc", exception class).
+    target: the object to call the method on instead of variable op[1] (an item reached by "at")."""
     L = lib()
     k, i = op[0], op[1]
-    c = pool[i]
+    c = pool[i] if target is None else target
     mop = None
     try:
+        if k == "at":
+            inner = inner_op(op)
+            # the model term of the inner call (values materialised) does not depend on where it is applied
+            _, imop = apply_impl(pool, inner, target=L["FIXContainer"]())
+            mop = [18, i, [step_sx(st) for st in op[2]], [LOP_CODE[inner[0]]] + imop[2:]]
+            cur = c
+            for st in op[2]:
+                t = mk_tag(st[1])
+                if st[0] == "idx":
+                    cur = cur.get_group_by_index(t, st[2])
+                elif st[0] == "tag":
+                    cur = cur.get_group_by_tag(t, mk_tag(st[2]), st[3])
+                else:
+                    cur = cur.get_group_list(t)[st[2]]
+            raw, _ = apply_impl(pool, inner, target=cur)
+            return raw, mop
         if k == "new":
             d, m = mk_dict(op[3], pool)
             mt = mk_mt(op[2])
@@ -305,6 +344,8 @@ def enc_rval(v):
 
 def enc_outcome(op, raw):
     """The projection compared with the model (mirror of ContainerRun.sx_outcome)."""
+    if op[0] == "at":
+        op = inner_op(op)
     if raw[0] == "exc":
         return [1, EXC_CODE.get(raw[1].__name__, 99)]
     k, r = op[0], raw[1]
@@ -486,9 +527,34 @@ class Ref:
         return c.d[k]
 
     # --- one operation: -> ("ok", expected value) ; raises RefExc / Unjudged ---------------
-    def apply(self, op):
+    def nav(self, cur, st):
+        """The item one accessor call reaches (the object itself: the reference has real aliasing)."""
+        g = self.group(cur, st[1])
+        if st[0] == "idx":
+            if st[2] >= len(g) or st[2] < -len(g):
+                raise RefExc(["TagNotFoundError"], "index out of range")
+            return g[st[2]]
+        if st[0] == "list":
+            if st[2] >= len(g) or st[2] < -len(g):
+                raise RefExc(["IndexError"], "list index out of range")
+            return g[st[2]]
+        gk = ref_key(st[2])
+        for x in g:
+            if gk in x.d:
+                if not isinstance(x.d[gk], str):
+                    raise RefExc(["FIXMessageError"], "inner tag is a group")
+                if x.d[gk] == st[3]:
+                    return x
+        raise RefExc(["TagNotFoundError"], "no item matches")
+
+    def apply(self, op, target=None):
         k, i = op[0], op[1]
-        c = self.pool[i]
+        c = self.pool[i] if target is None else target
+        if k == "at":
+            cur = c
+            for st in op[2]:
+                cur = self.nav(cur, st)
+            return self.apply(inner_op(op), target=cur)
         if k == "new":
             mt = None if op[2] is None else format(mk_mt(op[2]), "")
             self.pool[i] = self.build(mt, op[3])
@@ -609,6 +675,8 @@ def impl_content(c):
 
 def impl_view(op, raw):
     """The implementation's result in the reference's terms."""
+    if op[0] == "at":
+        op = inner_op(op)
     k, r = op[0], raw[1]
     FIXMessage = lib()["FIXMessage"]
 
@@ -790,7 +858,68 @@ def gen_dict(rng, depth=0, nmax=4):
     return out
 
 
-OPW = [("set", 22), ("get", 10), ("del", 6), ("in", 4), ("isg", 4), ("addg", 11), ("setg", 6), ("glist", 4),
+def gen_step(rng, ref, cur):
+    """One accessor step from the reference item cur -> (step, reached reference item or None)."""
+    gk = [k for k in group_keys(cur) if cur.d[k]] or group_keys(cur)
+    if not gk or rng.random() < 0.04:
+        st = [rng.choice(["idx", "list"]), gen_tag(rng, cur, 0.7), rng.randrange(-2, 3)]
+    else:
+        k = rng.choice(gk)
+        g = cur.d[k]
+        n = len(g)
+        kind = rng.choice(["idx", "idx", "list", "tag"])
+        if kind == "tag":
+            cands = [(ik, v) for x in g for ik, v in x.d.items() if isinstance(v, str)]
+            if cands and rng.random() < 0.9:
+                ik, v = rng.choice(cands)
+                st = ["tag", spell(rng, k), spell(rng, ik), v]
+            else:
+                st = ["tag", spell(rng, k), gen_tag(rng), rng.choice(STRS)]
+        else:
+            idx = rng.randrange(-n, n) if n and rng.random() < 0.9 else rng.choice([n, -n - 1, n + 3])
+            st = [kind, spell(rng, k), idx]
+    try:
+        return st, ref.nav(cur, st)
+    except RefExc:
+        return st, None
+
+
+def gen_path(rng, ref, c, depth=None):
+    """A path of 1..3 accessor steps from the reference container c (exactly `depth` steps when it can be done)."""
+    want = depth if depth is not None else rng.choice([1, 1, 1, 2, 2, 3])
+    path, cur = [], c
+    while len(path) < want and cur is not None:
+        st, cur = gen_step(rng, ref, cur)
+        path.append(st)
+        if cur is not None and depth is None and not group_keys(cur):
+            break
+    return path, cur
+
+
+def gen_lop(rng, x):
+    """A method call on the reached reference item x (None: the path fails, any call will do)."""
+    x = x if x is not None else RC()
+    k = rng.choice(["set"] * 7 + ["del"] * 3 + ["addg"] * 5 + ["setg"] * 2 + ["smt"] + ["get"] * 2)
+    gk = group_keys(x)
+    if k == "set":
+        repl = rng.random() < 0.5
+        return ["set", gen_tag(rng, x, 0.6), gen_val(rng, allow_cls=rng.random() < 0.2, allow_list=True), repl,
+                "setitem" if not repl and rng.random() < 0.3 else "set"]
+    if k == "del":
+        return ["del", gen_tag(rng, x, 0.85)]
+    if k == "addg":
+        t = spell(rng, rng.choice(gk)) if gk and rng.random() < 0.7 else gen_tag(rng, x, 0.2)
+        n = len(x.d.get(ref_key(t), [])) if isinstance(x.d.get(ref_key(t)), list) else 0
+        return ["addg", t, gen_item(rng, 2), rng.choice([None, None, -1, 0, 1, n, -2, -n - 1, 5])]
+    if k == "setg":
+        return ["setg", gen_tag(rng, x, 0.2), [gen_item(rng, 2) for _ in range(rng.randrange(0, 3))]]
+    if k == "smt":
+        return ["smt", rng.choice(MTS)]
+    d = rng.choice([["raise"], ["none"], ["s", "dflt"]])
+    return ["get", gen_tag(rng, x, 0.8), d, "getitem" if d[0] == "raise" and rng.random() < 0.4 else "get"]
+
+
+OPW = [("at", 10), ("set", 22), ("get", 10), ("del", 6), ("in", 4), ("isg", 4), ("addg", 11), ("setg", 6), ("glist", 4),
        ("gtag", 5), ("gidx", 7), ("query", 5), ("eq", 6), ("eqd", 7), ("str", 1), ("repr", 1), ("smt", 1),
        ("items", 2), ("new", 4)]
 OPS_FLAT = [k for k, w in OPW for _ in range(w)]
@@ -830,6 +959,16 @@ def gen_op(rng, ref):
     i = rng.randrange(NVARS)
     c = ref.pool[i]
     gk = group_keys(c)
+    if k == "at":
+        withg = [j for j in range(NVARS) if any(ref.pool[j].d[g] for g in group_keys(ref.pool[j]))]
+        if withg and rng.random() < 0.95:
+            i = rng.choice(withg)
+            c = ref.pool[i]
+        elif rng.random() < 0.7:
+            k = "addg"          # nothing to reach yet: build a group instead
+        if k == "at":
+            path, x = gen_path(rng, ref, c)
+            return ["at", i, path, gen_lop(rng, x)]
     if k == "new":
         mt = rng.choice(MTS) if rng.random() < 0.4 else None
         return ["new", i, mt, gen_dict(rng)]
@@ -931,6 +1070,57 @@ def collision_prefix(rng):
     return [["new", 0, None, a], ["new", 1, rng.choice([None, ["s", "D"]]), b], ["eq", 0, 1], ["eq", 1, 0]]
 
 
+def deep_dict(rng):
+    """A dict literal with groups nested three deep, so that every depth 0..3 can be reached."""
+    lvl3 = ["L", [["D", [[["i", 545], ["s", rng.choice(["s1", "s2"])]]]], ["D", [[["i", 545], ["s", "s3"]]]]]]
+    lvl2 = ["L", [["D", [[["i", 524], ["s", "p1"]], [["i", 804], lvl3]]], ["D", [[["i", 524], ["s", "p2"]]]]]]
+    lvl1 = ["L", [["D", [[["i", 79], ["s", "a1"]], [["i", 80], ["s", rng.choice(["10", "1"])]], [["i", 539], lvl2]]],
+                  ["D", [[["i", 79], ["s", "a2"]], [["i", 80], ["s", "20"]]]],
+                  ["D", [[["i", 79], ["s", "a3"]]]]]]
+    d = [[["i", 11], ["s", "ord"]], [["i", 55], ["s", rng.choice(["ABC", "X"])]], [["i", 78], lvl1]]
+    if rng.random() < 0.5:
+        d.append([["i", 1], ["s", "acct"]])
+    return d
+
+
+def sandwich(rng, r, nmut):
+    """History class: == ; one in-place change of variable 0 (every mutating method, at every depth 0..3,
+    reached through every accessor) ; == both ways ; the same change on variable 1 ; == .
+    Equality has to follow the current content each time."""
+    d = deep_dict(rng)
+    r.do(["new", 0, rng.choice([None, None, ["s", "D"]]), d])
+    r.do(["new", 1, rng.choice([None, None, ["s", "D"], ["m", "LOGON"]]), d])
+    ref = r.oracle.ref
+    for _ in range(nmut):
+        depth = rng.choice([0, 1, 1, 2, 2, 3, 3])
+        r.do(["eq", 0, 1])
+        if rng.random() < 0.5:
+            r.do(["eq", 1, 0])
+        if depth == 0:
+            x = ref.pool[0]
+            lop = gen_lop(rng, x)
+            if rng.random() < 0.1:
+                ops = [["new", v, None, deep_dict(rng)] for v in (0, 1)]
+                ops[1][3] = ops[0][3]
+            else:
+                ops = [[lop[0], v] + lop[1:] for v in (0, 1)]
+        else:
+            path, x = gen_path(rng, ref, ref.pool[0], depth)
+            lop = gen_lop(rng, x)
+            path1 = path
+            if rng.random() < 0.5:                       # reach the same item another way on the twin
+                path1, y = gen_path(rng, ref, ref.pool[1], depth)
+                if rng.random() < 0.7:
+                    path1 = path
+            ops = [["at", 0, path, lop], ["at", 1, path1, lop]]
+        r.do(ops[0])
+        r.do(["eq", 0, 1])
+        r.do(["eq", 1, 0])
+        if rng.random() < 0.9:
+            r.do(json.loads(json.dumps(ops[1])))
+            r.do(["eq", 0, 1])
+
+
 class Runner:
     """Generates (or replays) one sequence on the implementation and the reference."""
 
@@ -974,13 +1164,26 @@ def gen_sequence(rng, nops):
         for op in collision_prefix(rng):
             r.do(op)
     twin = 0.12 <= mode < 0.45
+    if 0.45 <= mode < 0.6:
+        sandwich(rng, r, max(2, nops // 6))
+    partner = {}
     while len(r.ops) < nops:
         op = gen_op(rng, r.oracle.ref)
+        chain = op[0] in MUTATING and rng.random() < 0.3
+        if chain:
+            # eq-after-mutation chain: compare, change in place, compare again with the same partner
+            i = op[1]
+            j = partner.get(i, rng.randrange(NVARS))
+            r.do(["eq", i, j] if rng.random() < 0.7 else ["eq", j, i])
         r.do(op)
+        if op[0] == "eq":
+            partner[op[1]], partner[op[2]] = op[2], op[1]
         if twin and op[0] in MUTATING and op[1] == 0 and rng.random() < 0.85 and len(r.ops) < nops:
             op2 = json.loads(json.dumps(op))
             op2[1] = 1
             r.do(op2)
+        if chain:
+            r.do(["eq", i, j] if rng.random() < 0.7 else ["eq", j, i])
     return r
 
 
@@ -1016,6 +1219,9 @@ def account(ctx, r, model_res):
     ctx.traces += 1
     for o, x in zip(r.ops, r.impl):
         ctx.count("op:" + o[0])
+        if o[0] == "at":
+            ctx.count("at:%s:depth%d" % (o[3][0], len(o[2])))
+            ctx.count("at:via:" + "/".join(sorted({st[0] for st in o[2]})))
         if x[0][0] == 1:
             ctx.count("exc:%s:%s" % (o[0], next((n for n, c in EXC_CODE.items() if c == x[0][1]), "other")))
         if o[0] in ("set", "addg", "setg") and x[0][0] == 0 and is_int_key(ref_key(o[2])) and not canonical(ref_key(o[2])):
@@ -1064,8 +1270,8 @@ def corpus():
 
 
 def run(ctx):
-    n = ctx.scale(2500, 60000)
-    maxops = ctx.scale(25, 40)
+    n = ctx.scale(3200, 60000)
+    maxops = ctx.scale(30, 40)
     runs = [replay_sequence(ops) for ops in WITNESSES + corpus()]
     for _ in range(n):
         runs.append(gen_sequence(ctx.rng, ctx.rng.randrange(3, maxops + 1)))
